@@ -17,7 +17,7 @@ Not decided: separator normalisation (see C11), mktime's arithmetic, data positi
 from ..context import Context
 from ..report import Report
 from ..facts import Facts, Matcher, ANY, is_const, const_val, describe, describe_fact
-from ..rules import stores_to_field, rets, guarded_site
+from ..rules import stores_to_field, rets, guarded_site, success_edges
 from ..gf2 import BitEval, sym, TOP, ZERO
 from ..lin import Lin, linform, ptr_form
 from ..ir import field_of_gep
@@ -594,6 +594,45 @@ def run(tier, seed):
             stray = [e_ for e_ in eff_all if id(e_[4]) not in claimed]
             rep.check(rid, not stray, "no header field is written outside the two recognised areas", ea.file, "%s" % [(e_[0], e_[4].where()) for e_ in stray][:3] if stray else None,
                       function=ea.cname, obj="stray")
+
+        # ---- R10 symlink entries: link name and target cut at the first '|' of the joined string ---------------------------------------
+        rid = rep.rule("R10", "symlink entries ('name|target' possibly split between the path and filename fields): the target is the tail after the first '|' of the "
+                              "*joined* path+filename string (lha_file_header_full_path), that byte is replaced by NUL and the joined string becomes the file name", 3)
+        JOIN = ("call", "lha_file_header_full_path", [ANY])
+        SEP = ("call", "strchr", [JOIN, 0x7c])
+        rep.need(rid, mod.fn("lha_file_header_full_path"), "function lha_file_header_full_path")
+        nst = 0
+        for fn_ in mod.defined():
+            sts = [st for st in stores_to_field(mod, "LHAFileHeader", "symlink_target", [fn_]) if not (st.ops[0][0] == "null" or (is_const(st.ops[0]) and const_val(st.ops[0]) == 0))]
+            if not sts:
+                continue
+            Mf = Matcher(fn_)
+            Ff = ctx.facts(fn_)
+            for st in sts:
+                nst += 1
+                srcs = [x for x, _ in Ff.sources(st.ops[0])]
+                okv = bool(srcs) and all(Mf.match(("call", "strdup", [("gep", SEP, [1])]), x, {}) is not None for x in srcs)
+                rep.check(rid, okv, "%s: symlink_target = strdup(strchr(lha_file_header_full_path(header), '|') + 1)" % fn_.cname, st.where(),
+                          None if okv else "the target is not cut from the joined path+filename string: a '|' in the path part would be missed (value: %s)" % [describe(fn_, x) for x in srcs][:2],
+                          function=fn_.cname, obj="target")
+                # the separator byte is cut and the joined string becomes the filename, on every path from this store to a successful return
+                cuts = [c for c in fn_.insts() if c.op == "store" and c.size == 1 and is_const(c.ops[0]) and const_val(c.ops[0]) == 0 and Mf.match(SEP, c.ops[1], {}) is not None]
+                names = [c for c in stores_to_field(mod, "LHAFileHeader", "filename", [fn_]) if Mf.match(JOIN, c.ops[0], {}) is not None]
+                cut = set()
+                for c in cuts:
+                    cut |= {(c.block.id, x) for x in c.block.succs} | ({(c.block.id, "ret")} if not c.block.succs else set())
+                cut2 = set()
+                for c in names:
+                    cut2 |= {(c.block.id, x) for x in c.block.succs} | ({(c.block.id, "ret")} if not c.block.succs else set())
+                bad = []
+                for v, pb, b in success_edges(Ff, fn_):
+                    tgt = pb if pb is not None else b
+                    for cs, what in ((cut, "'|' replaced by NUL"), (cut2, "joined string stored as filename")):
+                        if not any(c.block.id in (tgt, st.block.id) for c in (cuts if cs is cut else names)) and (tgt == st.block.id or Ff.reaches_avoiding(st.block.id, tgt, cs)):
+                            bad.append(what)
+                rep.check(rid, bool(cuts) and bool(names) and not bad, "%s: after the target is taken, the '|' is cut and the joined string becomes the filename on every successful path" % fn_.cname,
+                          st.where(), "missing on some successful path: %s" % sorted(set(bad)) if bad else None, function=fn_.cname, obj="cut-and-name")
+        rep.check(rid, nst >= 1, "symlink_target stores found", "lib/", "%d" % nst, function="symlink_target", obj="count")
 
         # ---- R9 all-caps folding -------------------------------------------------------------------------------------------------------
         rid = rep.rule("R9", "all-caps folding: a byte of path/filename is replaced by tolower() only for DOS-like OS types and only after *both* strings were "
